@@ -14,6 +14,7 @@ import (
 	"os"
 	"path/filepath"
 	"runtime"
+	"runtime/debug"
 	"sort"
 	"strings"
 	"sync"
@@ -37,6 +38,35 @@ func mkCase(engine string, payload any) Case {
 		panic(err)
 	}
 	return Case{Engine: engine, Payload: b}
+}
+
+// panicSite names the innermost function of the library under test on the current (panicking)
+// goroutine's stack; "" when the panic did not pass through the library.
+func panicSite(stack []byte) string {
+	for _, ln := range strings.Split(string(stack), "\n") {
+		if strings.HasPrefix(ln, "github.com/utreexo/utreexo.") {
+			fn := strings.TrimPrefix(ln, "github.com/utreexo/utreexo.")
+			if k := strings.LastIndex(fn, "("); k > 0 {
+				fn = fn[:k]
+			}
+			return fn
+		}
+	}
+	return ""
+}
+
+// panicViolation turns a recovered panic into a violation of prop. A panic that did not pass
+// through the library is the harness's own bug and is re-raised.
+func panicViolation(prop string, r any, stack []byte, cs Case, caseID string) Violation {
+	site := panicSite(stack)
+	if site == "" {
+		panic(fmt.Sprintf("harness panic: %v\n%s", r, stack))
+	}
+	st := string(stack)
+	if len(st) > 2500 {
+		st = st[:2500]
+	}
+	return Violation{Prop: prop, Sig: "panic in a library call on honest input: " + site, Detail: fmt.Sprintf("%v\n%s", r, st), Case: cs, CaseID: caseID}
 }
 
 // Violation is one failed oracle clause on one case.
@@ -272,7 +302,16 @@ func parallelFor(c *Ctx, n int, f func(i int)) bool {
 					atomic.StoreInt32(&expired, 1)
 					return
 				}
-				f(i)
+				func() {
+					defer func() {
+						if r := recover(); r != nil {
+							// families that know their case recover themselves; this is the net below them
+							stack := debug.Stack()
+							c.Col.Add(panicViolation(c.Prop, r, stack, mkCase("panic", map[string]any{"task": i, "of": n, "stack": string(stack)}), fmt.Sprintf("task %d of %d", i, n)))
+						}
+					}()
+					f(i)
+				}()
 			}
 		}()
 	}
@@ -529,7 +568,15 @@ func Replay(v Violation) int {
 	var outs [2]string
 	repro := false
 	for i := 0; i < 2; i++ {
-		vs, err := eng(v.Prop, v.Case.Payload)
+		vs, err := func() (vs []Violation, err error) {
+			defer func() {
+				if r := recover(); r != nil {
+					vs = []Violation{panicViolation(v.Prop, r, debug.Stack(), v.Case, "")}
+					vs[0].Detail = fmt.Sprint(r)
+				}
+			}()
+			return eng(v.Prop, v.Case.Payload)
+		}()
 		if err != nil {
 			fmt.Println("replay error:", err)
 			return 2
